@@ -223,34 +223,8 @@ theorem cdata_at_most_one_open (main : List Lang) (emb : Nat → Bytes → Optio
   cdataOnlyOnTop_count _ (cdata_only_on_top main emb events)
 
 /-- … and it is stronger than `cdata_never_nested`'s invariant. -/
-theorem cdata_only_on_top_stackOk (b : BState) (h : cdataOnlyOnTop b = true) : stackOk b = true := by
-  unfold cdataOnlyOnTop at h
-  unfold stackOk
-  generalize b.stack.map (·.kind) = l at h
-  have hall : ∀ (l : List FrameKind), allEltKinds l = true → kindsOk l = true := by
-    intro l
-    induction l with
-    | nil => intro _; rfl
-    | cons a r ih =>
-      intro ha
-      simp only [allEltKinds, List.all_cons, Bool.and_eq_true, Bool.not_eq_true'] at ha
-      cases r with
-      | nil => rfl
-      | cons c r' =>
-        simp only [kindsOk, ha.1, Bool.false_and, Bool.not_false, Bool.true_and]
-        exact ih (by simpa [allEltKinds] using ha.2)
-  cases l with
-  | nil => rfl
-  | cons a r =>
-    have hr := cdataTop_tail a r h
-    cases r with
-    | nil => rfl
-    | cons c r' =>
-      have hc : isCdataKind c = false := by
-        simp only [allEltKinds, List.all_cons, Bool.and_eq_true, Bool.not_eq_true'] at hr
-        exact hr.1
-      simp only [kindsOk, hc, Bool.and_false, Bool.not_false, Bool.true_and]
-      exact hall _ hr
+theorem cdata_only_on_top_stackOk (b : BState) (h : cdataOnlyOnTop b = true) : stackOk b = true :=
+  cdataTop_kindsOk _ h
 
 /-- **The builder's CDATA invariant** (`CdInv`: `cdataOnlyOnTop`; every open frame's children satisfy
     `Node.noMarkupInCdata` and an open CDATA frame's children are character data; so does the root)
